@@ -29,21 +29,21 @@
 EXTENDS Names, TLC
 
 ClassAttr ==
-  [al   |-> [alnum |-> TRUE,  sep |-> FALSE, ws |-> FALSE, named |-> "na",    ascl |-> TRUE,  xs |-> TRUE,  xc |-> TRUE],
-   dg   |-> [alnum |-> TRUE,  sep |-> FALSE, ws |-> FALSE, named |-> "na",    ascl |-> FALSE, xs |-> FALSE, xc |-> TRUE],
-   us   |-> [alnum |-> FALSE, sep |-> TRUE,  ws |-> FALSE, named |-> "na",    ascl |-> FALSE, xs |-> TRUE,  xc |-> TRUE],
-   hy   |-> [alnum |-> FALSE, sep |-> TRUE,  ws |-> FALSE, named |-> "na",    ascl |-> FALSE, xs |-> FALSE, xc |-> FALSE],
-   sp   |-> [alnum |-> FALSE, sep |-> TRUE,  ws |-> TRUE,  named |-> "na",    ascl |-> FALSE, xs |-> FALSE, xc |-> FALSE],
-   ows  |-> [alnum |-> FALSE, sep |-> FALSE, ws |-> TRUE,  named |-> "na",    ascl |-> FALSE, xs |-> FALSE, xc |-> FALSE],
-   sym  |-> [alnum |-> FALSE, sep |-> FALSE, ws |-> FALSE, named |-> "words", ascl |-> FALSE, xs |-> FALSE, xc |-> FALSE],
-   hsym |-> [alnum |-> FALSE, sep |-> FALSE, ws |-> FALSE, named |-> "hyph",  ascl |-> FALSE, xs |-> FALSE, xc |-> FALSE],
-   un   |-> [alnum |-> FALSE, sep |-> FALSE, ws |-> FALSE, named |-> "none",  ascl |-> FALSE, xs |-> FALSE, xc |-> FALSE],
-   nal  |-> [alnum |-> TRUE,  sep |-> FALSE, ws |-> FALSE, named |-> "na",    ascl |-> FALSE, xs |-> TRUE,  xc |-> TRUE],
-   nx   |-> [alnum |-> TRUE,  sep |-> FALSE, ws |-> FALSE, named |-> "na",    ascl |-> FALSE, xs |-> FALSE, xc |-> FALSE],
-   nd   |-> [alnum |-> TRUE,  sep |-> FALSE, ws |-> FALSE, named |-> "na",    ascl |-> FALSE, xs |-> FALSE, xc |-> TRUE],
-   cm   |-> [alnum |-> FALSE, sep |-> FALSE, ws |-> FALSE, named |-> "words", ascl |-> FALSE, xs |-> FALSE, xc |-> TRUE],
-   hcm  |-> [alnum |-> FALSE, sep |-> FALSE, ws |-> FALSE, named |-> "hyph",  ascl |-> FALSE, xs |-> FALSE, xc |-> TRUE],
-   xsym |-> [alnum |-> FALSE, sep |-> FALSE, ws |-> FALSE, named |-> "words", ascl |-> FALSE, xs |-> TRUE,  xc |-> TRUE]]
+  [al   |-> [alnum |-> TRUE,  sep |-> FALSE, ws |-> FALSE, named |-> "na",    ascd |-> FALSE, ascl |-> TRUE,  xs |-> TRUE,  xc |-> TRUE],
+   dg   |-> [alnum |-> TRUE,  sep |-> FALSE, ws |-> FALSE, named |-> "na",    ascd |-> TRUE , ascl |-> FALSE, xs |-> FALSE, xc |-> TRUE],
+   us   |-> [alnum |-> FALSE, sep |-> TRUE,  ws |-> FALSE, named |-> "na",    ascd |-> FALSE, ascl |-> FALSE, xs |-> TRUE,  xc |-> TRUE],
+   hy   |-> [alnum |-> FALSE, sep |-> TRUE,  ws |-> FALSE, named |-> "na",    ascd |-> FALSE, ascl |-> FALSE, xs |-> FALSE, xc |-> FALSE],
+   sp   |-> [alnum |-> FALSE, sep |-> TRUE,  ws |-> TRUE,  named |-> "na",    ascd |-> FALSE, ascl |-> FALSE, xs |-> FALSE, xc |-> FALSE],
+   ows  |-> [alnum |-> FALSE, sep |-> FALSE, ws |-> TRUE,  named |-> "na",    ascd |-> FALSE, ascl |-> FALSE, xs |-> FALSE, xc |-> FALSE],
+   sym  |-> [alnum |-> FALSE, sep |-> FALSE, ws |-> FALSE, named |-> "words", ascd |-> FALSE, ascl |-> FALSE, xs |-> FALSE, xc |-> FALSE],
+   hsym |-> [alnum |-> FALSE, sep |-> FALSE, ws |-> FALSE, named |-> "hyph",  ascd |-> FALSE, ascl |-> FALSE, xs |-> FALSE, xc |-> FALSE],
+   un   |-> [alnum |-> FALSE, sep |-> FALSE, ws |-> FALSE, named |-> "none",  ascd |-> FALSE, ascl |-> FALSE, xs |-> FALSE, xc |-> FALSE],
+   nal  |-> [alnum |-> TRUE,  sep |-> FALSE, ws |-> FALSE, named |-> "na",    ascd |-> FALSE, ascl |-> FALSE, xs |-> TRUE,  xc |-> TRUE],
+   nx   |-> [alnum |-> TRUE,  sep |-> FALSE, ws |-> FALSE, named |-> "na",    ascd |-> FALSE, ascl |-> FALSE, xs |-> FALSE, xc |-> FALSE],
+   nd   |-> [alnum |-> TRUE,  sep |-> FALSE, ws |-> FALSE, named |-> "na",    ascd |-> FALSE, ascl |-> FALSE, xs |-> FALSE, xc |-> TRUE],
+   cm   |-> [alnum |-> FALSE, sep |-> FALSE, ws |-> FALSE, named |-> "words", ascd |-> FALSE, ascl |-> FALSE, xs |-> FALSE, xc |-> TRUE],
+   hcm  |-> [alnum |-> FALSE, sep |-> FALSE, ws |-> FALSE, named |-> "hyph",  ascd |-> FALSE, ascl |-> FALSE, xs |-> FALSE, xc |-> TRUE],
+   xsym |-> [alnum |-> FALSE, sep |-> FALSE, ws |-> FALSE, named |-> "words", ascd |-> FALSE, ascl |-> FALSE, xs |-> TRUE,  xc |-> TRUE]]
 ClassIds == DOMAIN ClassAttr
 
 At(c, s) == [c |-> c, s |-> s]
@@ -94,15 +94,18 @@ ClassesOfAscii(str) == [i \in 1..Len(str) |-> AsciiClass(Ch(str, i))]
 
 (***************************************************************************)
 (* Output items: an atom plus its provenance                               *)
-(*   k = "in"  copied input character o                                    *)
-(*       "ws"  underscore written for whitespace character o               *)
-(*       "lab" part of the (lower-cased) Unicode name of character o       *)
-(*       "pad" underscore put around the name of character o               *)
-(*       "fix" literal text: "blank", the "_" prefix, the "_" suffix       *)
-(* Provenance lets the harness substitute any code point of the class.     *)
+(*   k = "in"    copied input character o (f = its class; when c # f the   *)
+(*               character was a " " or "-" later replaced by "_")         *)
+(*       "ws"    underscore written for whitespace character o            *)
+(*       "lab"   part of the (lower-cased) Unicode name of character o     *)
+(*       "pad"   underscore put around the name of character o             *)
+(*       "blank" / "pre" / "suf"  literal text: "blank", the "_" prefix,   *)
+(*               the "_" suffix                                            *)
+(* Provenance lets the harness substitute any code point of the class and  *)
+(* names the two derivations that meet when two names collide.             *)
 (***************************************************************************)
-Item(k, c, s, o) == [k |-> k, c |-> c, s |-> s, o |-> o]
-UsItem(k, o) == Item(k, "us", "_", o)
+Item(k, c, s, o, f) == [k |-> k, c |-> c, s |-> s, o |-> o, f |-> f]
+UsItem(k, o, f) == Item(k, "us", "_", o, f)
 
 (* split a Unicode name into words and its separators " " / "-"            *)
 RECURSIVE Toks(_, _, _)
@@ -116,19 +119,19 @@ Toks(str, i, cur) ==
 LabelItems(a, o) ==
   LET ts == Toks(UniName(a), 1, "")
   IN [j \in 1..Len(ts) |->
-        IF ts[j] = " " THEN Item("lab", "sp", " ", o)
-        ELSE IF ts[j] = "-" THEN Item("lab", "hy", "-", o)
-        ELSE Item("lab", IF IsAsciiDigit(Ch(ts[j], 1)) THEN "dg" ELSE "al", ts[j], o)]
+        IF ts[j] = " " THEN Item("lab", "sp", " ", o, a.c)
+        ELSE IF ts[j] = "-" THEN Item("lab", "hy", "-", o, a.c)
+        ELSE Item("lab", IF IsAsciiDigit(Ch(ts[j], 1)) THEN "dg" ELSE "al", ts[j], o, a.c)]
 
 (* _char_map(idx, char)                                                    *)
 CharMapC(name, i) ==
   LET a  == name[i]
       at == ClassAttr[a.c]
-  IN IF at.alnum \/ at.sep THEN << Item("in", a.c, a.s, i) >>
-     ELSE IF at.ws THEN << UsItem("ws", i) >>
+  IN IF at.alnum \/ at.sep THEN << Item("in", a.c, a.s, i, a.c) >>
+     ELSE IF at.ws THEN << UsItem("ws", i, a.c) >>
      ELSE LET lab0 == LabelItems(a, i)
-              lab1 == IF i # 1 /\ name[i - 1].c # "us" THEN << UsItem("pad", i) >> \o lab0 ELSE lab0
-              lab2 == IF i # Len(name) /\ name[i + 1].c # "us" THEN lab1 \o << UsItem("pad", i) >> ELSE lab1
+              lab1 == IF i # 1 /\ name[i - 1].c # "us" THEN << UsItem("pad", i, a.c) >> \o lab0 ELSE lab0
+              lab2 == IF i # Len(name) /\ name[i + 1].c # "us" THEN lab1 \o << UsItem("pad", i, a.c) >> ELSE lab1
           IN lab2
 
 RECURSIVE JoinC(_, _)
@@ -145,13 +148,44 @@ FlatItems(items) == FlatSeq(ItemAtoms(items))
 (* _parse_attribute_name                                                   *)
 AttrNameC(name) ==
   LET mapped == ReplaceSeps(JoinC(name, 1))
-  IN IF Len(mapped) = 0 THEN << Item("fix", "al", "blank", 0) >>
+  IN IF Len(mapped) = 0 THEN << Item("blank", "al", "blank", 0, "") >>
      ELSE LET f   == mapped[1]
               pre == IF ClassAttr[f.c].ascl \/ f.c = "us" THEN mapped
-                     ELSE << UsItem("fix", 0) >> \o mapped
-          IN IF FlatItems(pre) \in Reserved THEN pre \o << UsItem("fix", 0) >> ELSE pre
+                     ELSE << UsItem("pre", 0, "") >> \o mapped
+          IN IF FlatItems(pre) \in Reserved THEN pre \o << UsItem("suf", 0, "") >> ELSE pre
 
 FlatAttr(name) == FlatItems(AttrNameC(name))
+
+(***************************************************************************)
+(* Why two names collide: the derivation of each output character          *)
+(*   in:<class>         the character itself                               *)
+(*   rep:<class>        a " " or "-" replaced by "_"                       *)
+(*   ws:<class>         "_" written for a whitespace character             *)
+(*   lab:<class>/word   a word of the Unicode name of a <class> character  *)
+(*   lab:<class>/sep    "_" for a " " or "-" inside that name              *)
+(*   pad, prefix, suffix, blank                                            *)
+(* Sig(n, m) = for every output position where the two derivations differ  *)
+(* (or are the same derivation of different input characters) the set of   *)
+(* the two derivations.  This is the root-cause signature of a collision.  *)
+(***************************************************************************)
+Deriv(it) ==
+  CASE it.k = "in"  -> IF it.f = it.c THEN "in:" \o it.c ELSE "rep:" \o it.f
+    [] it.k = "ws"  -> "ws:" \o it.f
+    [] it.k = "lab" -> "lab:" \o it.f \o (IF it.c = "us" THEN "/sep" ELSE "/word")
+    [] it.k = "pad" -> "pad"
+    [] it.k = "pre" -> "prefix"
+    [] it.k = "suf" -> "suffix"
+    [] it.k = "blank" -> "blank"
+Sig(n, m) ==
+  LET a == AttrNameC(n)
+      b == AttrNameC(m)
+      src(q, it) == IF it.o = 0 THEN At("", "") ELSE q[it.o]
+  IN IF Len(a) # Len(b) THEN {{"misaligned"}}
+     ELSE {{Deriv(a[j]), Deriv(b[j])} :
+             j \in {i \in 1..Len(a) :
+                     \/ Deriv(a[i]) # Deriv(b[i])
+                     \/ ((a[i].k = "lab" /\ a[i].c # "us") \/ a[i].k = "ws")
+                        /\ src(n, a[i]) # src(m, b[i])}}
 
 (***************************************************************************)
 (* _parse_properties (a dict comprehension keyed by the mapped name: a     *)
@@ -245,8 +279,13 @@ GenNames == {"Any", "List", "Union", "Maybe", "Property", "Object", "Element", "
              "String", "Integer", "Number", "Boolean", "Null", "Array",
              "AnyOf", "OneOf", "AllOf", "Not"}
 
-(* names used by the module generated for a property whose schema is the   *)
-(* witness for `what` (see harness/namesfamily.py USE_SCHEMAS)             *)
+(* _get_imports: the element classes are imported when an element of that  *)
+(* class occurs; the typing names, Maybe and Property are imported when    *)
+(* their text occurs ANYWHERE in the declarations (`"Any" in declaration`: *)
+(* a class called AnyOf or Anybody also triggers `from typing import Any`).*)
+(* UsesOf(what) = the names that the declaration of a property whose       *)
+(* schema is the witness for `what` mentions (harness/namesfamily.py       *)
+(* USE_SCHEMAS).                                                           *)
 UseKinds == {"String", "Integer", "Number", "Boolean", "Null", "Array", "Element", "Nothing",
              "AnyOf", "OneOf", "AllOf", "Not"}
 UsesOf(what) ==
@@ -263,6 +302,15 @@ UsesOf(what) ==
     [] what = "OneOf"   -> {"OneOf", "Union", "String", "Integer"}
     [] what = "AllOf"   -> {"AllOf", "Element", "Any"}
     [] what = "Not"     -> {"Not", "String", "Any"}
+
+SubStr(needle, hay) ==
+  \E i \in 1..(Len(hay) - Len(needle) + 1) : SubSeq(hay, i, i + Len(needle) - 1) = needle
+TextImports == {"Any", "List", "Union", "Maybe", "Property"}
+(* names imported by a module whose declarations mention `mentioned` and   *)
+(* declare the classes `classnames`                                        *)
+ImportedNames(mentioned, classnames) ==
+  (mentioned \ TextImports)
+  \cup {t \in TextImports : \E piece \in mentioned \cup classnames : SubStr(t, piece)}
 
 (***************************************************************************)
 (* Documents of titled objects.  A document is a root object (title        *)
